@@ -110,8 +110,7 @@ def embed_intent(it, a):
         # shear states: the convection vanishes, what remains is diffusion + drag, channel by channel
         return dict(cls="generic.GeneralLinearStepper", D=1, N=N, L=it["L"], dt=it["dt"], kw=dict(linear_coefficients=[kw.get("drag", 0.0), 0.0, kw.get("diffusivity", 0.01)]), shear=True)
     if c == "generic.GeneralVorticityConvectionStepper" and kw.get("injection_scale", 0.0) == 0.0:
-        co = list(kw["linear_coefficients"])
-        co[0] *= D
+        co = list(kw["linear_coefficients"])          # a_0 was already multiplied by D above (documented symbol counts it once per axis)
         return dict(cls="generic.GeneralLinearStepper", D=1, N=N, L=it["L"], dt=it["dt"], kw=dict(linear_coefficients=co), shear=True)
     return None
 
